@@ -330,6 +330,20 @@ def gen_tree(rng, depth, kind="ok", allowed=None, feature=None, root_dir=None):
                 tgt = t.files[n[1]]["path"]
                 if not re.fullmatch(r"[A-Za-z0-9_./-]+", tgt) or st["form"] in ("abs", "dslash"):
                     st["quote"] = '"'
+    if allowed is None and kind == "ok" and rng.random() < 0.3:
+        # an include of an EMPTY file (zero bytes, or a lone line break; possibly itself only including an empty
+        # file): by substitution it contributes nothing
+        e1 = {"path": new_path(len(t.files)), "nodes": [], "nl": "\n", "final_nl": rng.random() < 0.4, "ghost": False}
+        t.files.append(e1)
+        target = len(t.files) - 1
+        if rng.random() < 0.3:
+            e2 = {"path": new_path(len(t.files)), "nodes": [["inc", target, dict(PLAIN)]], "nl": "\n", "final_nl": False, "ghost": False}
+            t.files.append(e2)
+            target = len(t.files) - 1
+        host = rng.choice([f for f in t.files[:-1] if f["nodes"]] or [t.files[0]])
+        blocks = [n for n in host["nodes"] if n[0] == "block"]
+        where = rng.choice(blocks)[2] if blocks and rng.random() < 0.7 else host["nodes"]
+        where.insert(rng.randrange(0, len(where) + 1), ["inc", target, dict(PLAIN, quote='"')])
     if kind == "cycle":
         # some include of a deepest file points back to an ancestor (or to its own file)
         incs = [(fi, n) for fi, f in enumerate(t.files) for n in iter_incs(f["nodes"])]
@@ -732,6 +746,8 @@ def simplifications(t):
 
 
 def shrink_tree(t, fails, max_steps=250):
+    if os.environ.get("VERIF_C15_NOSHRINK"):
+        return t
     steps = 0
     progress = True
     while progress and steps < max_steps:
@@ -777,6 +793,8 @@ def judge(impl, exp, got, ref):
     """-> None when the property holds, else (symptom, detail)."""
     if exp[0] == "ok":
         if got[0] != "ok":
+            if ref[0] != "ok" and ref[1] == got[1] and got[1] in ("UnexpectedToken", "UnexpectedCharacters", "VisitError"):
+                return None          # the flattened text is rejected by the parser in the same way: substitution equivalence holds
             return ("expand:unexpected-error:%s" % got[1], "expansion should succeed; raised %s" % got[1])
         if ref[0] != "ok":
             return ("expand:accepts-what-flattened-text-rejects", "loads(flattened) raises %s but the include form loads" % ref[1])
